@@ -42,6 +42,8 @@ void c20trace_run();
 
 const C20IPlan *c20i_plan();
 int c20i_count();                      // images written in this run (each by its own thread if > 1)
+int c20i_decimal_comma();             // 1: the process has adopted a locale whose decimal point is a comma
+void c20i_locale_result(int adopted);
 int c20i_one_after_another();          // 1: the images are written one after another by the same thread instead
 const C20IPlan *c20i_plan_n(int i);
 const char *c20_path_n(int i);
